@@ -381,6 +381,31 @@ theorem doAncestors_sim_own_fuel {α} {S : String → Prop} {now : Int} {fn : St
   rw [← e1, ← e2]
   exact doAncestors_sim hfnk hfnm _ sys1 sys2 n acc [] hR hn
 
+theorem tagged_keeps {α} {fn : String → LM α} (h : ∀ n, (fn n).KeepsName) (n : String) : (tagged fn n).KeepsName := by
+  intro l
+  unfold tagged LM.bind
+  have := h n l
+  cases hml : fn n l with
+  | mk l1 r => rw [hml] at this; cases r <;> exact this
+
+theorem tagged_parentMono {α} {fn : String → LM α} {now : Int} (h : ∀ n, (fn n).ParentMono now) (n : String) :
+    (tagged fn n).ParentMono now := by
+  intro S l hl
+  unfold tagged LM.bind
+  have := h n S l hl
+  cases hml : fn n l with
+  | mk l1 r => rw [hml] at this; cases r <;> exact this
+
+theorem tagged_ok {α} {fn : String → LM α} {m : String} {l : Loc} {x : String × α}
+    (h : (tagged fn m l).2 = .ok x) : x.1 = m := by
+  unfold tagged LM.bind at h
+  cases hml : fn m l with
+  | mk l1 r =>
+    rw [hml] at h
+    cases r with
+    | error e => cases h
+    | ok a => simp only [LM.pure] at h; cases h; rfl
+
 /-- **noninterference** for `SearchFacts`: equal outcome on systems that agree on a parent-closed `S ∋ n` -/
 theorem sysSearchFacts_sim {S : String → Prop} {now : Int} {sys1 sys2 : Sys} (hR : SimR S now sys1 sys2)
     {n : String} (hn : S n) (c : Ctx) (p : Obj) (inh : Bool) :
@@ -393,12 +418,13 @@ theorem sysSearchFacts_sim {S : String → Prop} {now : Int} {sys1 sys2 : Sys} (
     exact at_sim hR hn (locSearchFacts_keeps c p now).keepsName ((locSearchFacts_shr c p now).parentMono now)
   | true =>
     simp only [if_true]
-    obtain ⟨h1, h2⟩ := doAncestors_sim_own_fuel (fn := fun _ => locSearchFacts c p now)
-      (fun _ => (locSearchFacts_keeps c p now).keepsName) (fun _ => (locSearchFacts_shr c p now).parentMono now)
+    obtain ⟨h1, h2⟩ := doAncestors_sim_own_fuel (fn := tagged (fun _ => locSearchFacts c p now))
+      (tagged_keeps (fun _ => (locSearchFacts_keeps c p now).keepsName))
+      (tagged_parentMono (fun _ => (locSearchFacts_shr c p now).parentMono now))
       hR hn []
-    cases hd1 : doAncestors (ancestorFuel sys1) sys1 n now (fun _ => locSearchFacts c p now) [] with
+    cases hd1 : doAncestors (ancestorFuel sys1) sys1 n now (tagged (fun _ => locSearchFacts c p now)) [] with
     | mk s1 r1 =>
-      cases hd2 : doAncestors (ancestorFuel sys2) sys2 n now (fun _ => locSearchFacts c p now) [] with
+      cases hd2 : doAncestors (ancestorFuel sys2) sys2 n now (tagged (fun _ => locSearchFacts c p now)) [] with
       | mk s2 r2 =>
         rw [hd1, hd2] at h1 h2
         simp only at h1 h2
@@ -411,12 +437,13 @@ theorem sysSearchRulesAnc_sim {S : String → Prop} {now : Int} {sys1 sys2 : Sys
     (sysSearchRulesAnc sys1 c n ev now).2 = (sysSearchRulesAnc sys2 c n ev now).2 ∧
       SimR S now (sysSearchRulesAnc sys1 c n ev now).1 (sysSearchRulesAnc sys2 c n ev now).1 := by
   unfold sysSearchRulesAnc
-  obtain ⟨h1, h2⟩ := doAncestors_sim_own_fuel (fn := fun _ => locSearchRules c ev now)
-    (fun _ => (locSearchRules_keeps c ev now).keepsName) (fun _ => (locSearchRules_shr c ev now).parentMono now)
+  obtain ⟨h1, h2⟩ := doAncestors_sim_own_fuel (fn := tagged (fun _ => locSearchRules c ev now))
+    (tagged_keeps (fun _ => (locSearchRules_keeps c ev now).keepsName))
+    (tagged_parentMono (fun _ => (locSearchRules_shr c ev now).parentMono now))
     hR hn []
-  cases hd1 : doAncestors (ancestorFuel sys1) sys1 n now (fun _ => locSearchRules c ev now) [] with
+  cases hd1 : doAncestors (ancestorFuel sys1) sys1 n now (tagged (fun _ => locSearchRules c ev now)) [] with
   | mk s1 r1 =>
-    cases hd2 : doAncestors (ancestorFuel sys2) sys2 n now (fun _ => locSearchRules c ev now) [] with
+    cases hd2 : doAncestors (ancestorFuel sys2) sys2 n now (tagged (fun _ => locSearchRules c ev now)) [] with
     | mk s2 r2 =>
       rw [hd1, hd2] at h1 h2
       simp only at h1 h2
@@ -539,31 +566,6 @@ theorem doAncestors_outputs {α} {S : String → Prop} {now : Int} {fn : String 
                       rw [Sys.at_some _ hl0] at hf1
                       have := congrArg Prod.snd hf1; simp only at this
                       exact hP n hn l0 x this
-
-theorem tagged_keeps {α} {fn : String → LM α} (h : ∀ n, (fn n).KeepsName) (n : String) : (tagged fn n).KeepsName := by
-  intro l
-  unfold tagged LM.bind
-  have := h n l
-  cases hml : fn n l with
-  | mk l1 r => rw [hml] at this; cases r <;> exact this
-
-theorem tagged_parentMono {α} {fn : String → LM α} {now : Int} (h : ∀ n, (fn n).ParentMono now) (n : String) :
-    (tagged fn n).ParentMono now := by
-  intro S l hl
-  unfold tagged LM.bind
-  have := h n S l hl
-  cases hml : fn n l with
-  | mk l1 r => rw [hml] at this; cases r <;> exact this
-
-theorem tagged_ok {α} {fn : String → LM α} {m : String} {l : Loc} {x : String × α}
-    (h : (tagged fn m l).2 = .ok x) : x.1 = m := by
-  unfold tagged LM.bind at h
-  cases hml : fn m l with
-  | mk l1 r =>
-    rw [hml] at h
-    cases r with
-    | error e => cases h
-    | ok a => simp only [LM.pure] at h; cases h; rfl
 
 /-! ## deciding parent-closedness of a finite set of names -/
 
